@@ -65,20 +65,22 @@ def main():
     if os.path.exists(os.path.join(out, "notes.md")):
         notes = open(os.path.join(out, "notes.md")).read()
         open(os.path.join(dst, "notes.md"), "w").write(notes)
-    # run the checks against it
-    rc, o = sh("git status --porcelain", cwd="/repo")
-    if o.strip():
-        print("/repo not clean:", o)
-        return 2
+    # run the checks against it, in a second scratch worktree (never /repo: see VERIF_REPO in ./check)
+    wt2 = "/tmp/seed/run_" + name
+    sc2 = "/tmp/seed/scratch_" + name
+    sh("git -C /repo worktree remove --force %s" % wt2)
+    sh("git -C /repo worktree add -q %s HEAD" % wt2)
     results = {}
     try:
-        rc, o = sh("git apply %s" % patch, cwd="/repo")
+        rc, o = sh("git apply %s" % patch, cwd=wt2)
         if rc:
-            print("patch does not apply to /repo:", o)
+            print("patch does not apply:", o)
             return 1
         for c in checks:
             t0 = time.time()
-            rc, o = sh([os.path.join(ROOT, "check"), c, tier], cwd=ROOT, timeout=14400)
+            env = dict(ENV, VERIF_REPO=wt2, VERIF_SCRATCH=sc2)
+            r = subprocess.run([os.path.join(ROOT, "check"), c, tier], cwd=ROOT, env=env, stdout=subprocess.PIPE, stderr=subprocess.STDOUT, text=True, errors="replace", timeout=14400)
+            rc, o = r.returncode, r.stdout
             sig = ""
             for ln in o.splitlines():
                 if "VIOLATION-CANDIDATE" in ln and "sig=" in ln:
@@ -87,11 +89,11 @@ def main():
                     sig = ln
             results[c] = {"tier": tier, "outcome": "caught" if rc == 1 else "missed" if rc == 0 else "inconclusive", "sig": sig, "wall_s": round(time.time() - t0, 1)}
             print(c, results[c])
+            if rc == 2:
+                print(o[-3000:])
     finally:
-        sh("git checkout -- .", cwd="/repo")
-        rc, o = sh("git status --porcelain", cwd="/repo")
-        if o.strip():
-            print("WARNING /repo not clean after revert:", o)
+        sh("git -C /repo worktree remove --force %s" % wt2)
+        shutil.rmtree(sc2, ignore_errors=True)
     meta_path = os.path.join(dst, "meta.json")
     meta = {}
     if os.path.exists(meta_path):
